@@ -484,6 +484,9 @@ func validateSamples(nb *nativeBuild, results []instResult) (ok, bad int, notes 
 	for _, r := range results {
 		n := 0
 		for _, p := range r.rep.Paths {
+			if r.inst.Nondet {
+				break
+			}
 			if p.Model != nil && n < 2 {
 				jobs = append(jobs, job{r.inst, p})
 				n++
